@@ -20,11 +20,11 @@ import (
 // absent channel reader; and of a full node running on the real timer.
 
 type c19Op struct {
-	K  string `json:"k"` // register | stop | sleep | reader
-	H  uint64 `json:"h"`
-	V  uint64 `json:"v"`
-	Us int    `json:"us"`   // sleep: microseconds (absolute), or relative to the current expiry when Rel is set
-	Rel bool  `json:"rel"`  // sleep until Us microseconds before (negative) / after (positive) the expiry of the active arming
+	K    string `json:"k"` // register | stop | sleep | reader
+	H    uint64 `json:"h"`
+	V    uint64 `json:"v"`
+	Us   int    `json:"us"`   // sleep: microseconds (absolute), or relative to the current expiry when Rel is set
+	Rel  bool   `json:"rel"`  // sleep until Us microseconds before (negative) / after (positive) the expiry of the active arming
 	Mode string `json:"mode"` // reader: on | slow | off
 }
 
@@ -264,8 +264,8 @@ func TestC19Trigger(t *testing.T) {
 
 // Full node on the real timer, left alone: views advance by timeouts only; every view lasts at least its timeout.
 type c19NodeCase struct {
-	Cfg     rt.Config `json:"cfg"`
-	WaitMs  int       `json:"wait_ms"`
+	Cfg    rt.Config `json:"cfg"`
+	WaitMs int       `json:"wait_ms"`
 }
 
 func runC19Node(c c19NodeCase) (*ev.Violation, bool) {
